@@ -25,10 +25,11 @@ fn usage() -> ! {
     std::process::exit(2)
 }
 
-fn go<P: Prop>(p: P, args: &[String]) -> i32 {
+fn go<P: Prop + 'static>(p: P, args: &[String]) -> i32 {
+    let p: &'static P = Box::leak(Box::new(p));
     if args.first().map(|s| s.as_str()) == Some("--replay") {
         let Some(path) = args.get(1) else { usage() };
-        return driver::replay(&p, &PathBuf::from(path));
+        return driver::replay(p, &PathBuf::from(path));
     }
     let tier_s = args
         .first()
@@ -79,7 +80,7 @@ fn go<P: Prop>(p: P, args: &[String]) -> i32 {
             _ => usage(),
         }
     }
-    driver::run_batch(&p, &opts)
+    driver::run_batch(p, &opts)
 }
 
 fn main() {
